@@ -17,12 +17,13 @@ import (
 // Corpus is one generation unit: schema files + generator options.
 type Corpus struct {
 	Name      string
-	Files     []string // absolute paths
-	TL2       string   // --tl2WhiteList value ("" = none)
-	Sanity    bool     // --checkLengthSanity
-	BytesVers string   // --generateByteVersions
-	Split     bool     // --split-internal
-	OnlyTops  []string // optional restriction of top-level types
+	Files     []string       // absolute paths
+	TL2       string         // --tl2WhiteList value ("" = none)
+	Sanity    bool           // --checkLengthSanity
+	BytesVers string         // --generateByteVersions
+	Split     bool           // --split-internal
+	OnlyTops  []string       // optional restriction of top-level types
+	RefGraph  map[string]any `json:"-"` // C11: instance graph from the independent generator (used instead of the kernel's)
 }
 
 type Built struct {
@@ -30,6 +31,7 @@ type Built struct {
 	Dir    string
 	Drv    *core.Proc
 	Schema map[string]any // post-processed instance graph (with tops, dom)
+	Kernel map[string]any // the kernel's own graph (astdump), when Schema comes from the reference generator
 	Tops   []string
 	Items  map[string]map[string]any // runtime registry as listed by the driver
 }
@@ -124,7 +126,11 @@ func Build(c *core.Ctx, cp Corpus) (*Built, error) {
 	if err != nil {
 		return nil, err
 	}
-	b := &Built{Corpus: cp, Dir: dir, Drv: p, Schema: g, Items: map[string]map[string]any{}}
+	b := &Built{Corpus: cp, Dir: dir, Drv: p, Schema: g, Kernel: g, Items: map[string]map[string]any{}}
+	if cp.RefGraph != nil {
+		b.Schema = cp.RefGraph
+		g = cp.RefGraph
+	}
 	var lst struct {
 		Items []map[string]any `json:"items"`
 	}
